@@ -61,7 +61,8 @@ try:
     out['checks'] = {}
     for p in props:
         t0 = time.time()
-        rc, o = sh(f'cd /verif && ./check {p}', 3000)
+        # evidence and replay files of a run against a patched tree must not overwrite the committed ones
+        rc, o = sh(f'cd /verif && VERIF_EVIDENCE_DIR=/tmp/seedcycle_ev VERIF_REPLAYS_DIR=/tmp/seedcycle_rp ./check {p}', 3000)
         viol = [l for l in o.splitlines() if l.startswith('VIOLATION')]
         ref = [re.sub(r'\s+', ' ', l)[:260] for l in o.splitlines() if l.strip().startswith('refuted:')]
         out['checks'][p] = {'exit': rc, 'violation_lines': viol, 'refuted': ref[:8], 'natively_replayed': any('no-failing-input-found' not in v for v in viol),
